@@ -311,6 +311,21 @@ def check_window(ctx):
                         stub._host = view.stmt_of(n)
                         ranges.append(stub)
         if not ranges:
+            # no loop over the window. If the function (and what it calls directly) never even computes a size bound,
+            # the window is provably not applied: that is a violation, not an unreadable shape
+            seen = set()
+            for c_ in repo.calls_in(f):
+                seen.add(call_name(c_))
+                r_ = repo.resolve_call(f, c_)
+                if r_ is not None:
+                    seen.update(call_name(x) for x in repo.calls_in(r_[0]))
+            if not ({'get_size_lower_bound', 'get_size_upper_bound'} & seen):
+                ctx.check('R-CAND/window', f, 'size window', False,
+                          '%s.find_candidates computes neither get_size_lower_bound nor get_size_upper_bound of the probe size: '
+                          'candidates outside the size window are no longer dismissed, so the filter keeps pairs the size '
+                          'filter drops (the overlap bound does not subsume it: both round to 4 decimals before ceil/floor)'
+                          % cls, f.node)
+                continue
             raise AnalysisError('%s: no range(lo, hi + 1) loop over the size window' % f.where)
         for i, lp in enumerate(ranges):
             host = getattr(lp, '_host', lp)
@@ -729,10 +744,53 @@ def check_probe_side(ctx):
     ctx.floor('R-CAND/probe-side', n, 7, 'find_candidates call sites')
 
 
+def check_probe_skip(ctx):
+    """inside the loop over the right rows nothing steps over the probe: the only `continue` / `break` / `return`
+    that may run before `find_candidates` for a row is the one closing the allow_empty branch (whose exact form is
+    R-EMPTY's business). Any other skip - a length test, a cache hit, a 'cannot match anyway' shortcut - removes the
+    row from the probe for some tokenizer (padding!) or operator."""
+    repo = ctx.repo
+    n = 0
+    for f in repo.all_funcs():
+        if f.module.relpath.endswith('disk_edit_distance_join.py'):
+            continue
+        for c in repo.calls_in(f):
+            if not (isinstance(c.func, ast.Attribute) and c.func.attr == 'find_candidates' and len(c.args) == 2):
+                continue
+            view = view_of(f)
+            st = view.stmt_of(c)
+            loops = _enclosing_loops(f, st)
+            if not loops:
+                continue
+            loop = loops[-1]
+            n += 1
+
+            def rec(stmts, guards):
+                for s_ in stmts:
+                    if s_.lineno >= st.lineno:
+                        return
+                    if isinstance(s_, (ast.Continue, ast.Break, ast.Return)):
+                        ok = any('allow_empty' in U(g) or 'allow_empty' in U(view.expand(g, gi)) for g, gi in guards)
+                        ctx.check('R-CAND/probe-skip', f, '%s before the probe' % type(s_).__name__.lower(), ok,
+                                  'inside the loop over the probe rows a `%s` under `%s` runs before `%s`: the row is never '
+                                  'probed although no allow_empty branch consumed it (a string shorter than q still has '
+                                  'padded q-grams; a row is never too short/long to be probed - the size window decides)'
+                                  % (type(s_).__name__.lower(), ' and '.join(U(g)[:50] for g, _ in guards) or 'no guard',
+                                     U(c.func)[:40]), s_, sample='%s under the allow_empty branch' % type(s_).__name__.lower())
+                    elif isinstance(s_, ast.If):
+                        rec(s_.body, guards + [(s_.test, s_)])
+                        rec(s_.orelse, guards + [(ast.UnaryOp(op=ast.Not(), operand=s_.test), s_)])
+                    elif isinstance(s_, (ast.With, ast.Try)):
+                        rec(s_.body, guards)
+            rec(loop.body, [])
+    ctx.floor('R-CAND/probe-skip', n, 7, 'probe loops around find_candidates')
+
+
 def run(ctx, slices=True, unique=True, provenance=True, window=True, prune=True, consume=True, probe=True, early=True, sizes=False, collect=None):
     ctx.group('R-CAND')
     if probe:
         check_probe_side(ctx)
+        check_probe_skip(ctx)
     if early:
         check_early_exits(ctx)
     if collect if collect is not None else early:
